@@ -9,6 +9,8 @@ use crate::world::*;
 #[derive(Clone, Copy, Debug, PartialEq, Eq, Hash)]
 pub(crate) enum K {
     Register,
+    RegPiece,
+    CompletionCollision,
     NewConn,
     Join,
     JoinMulti,
@@ -305,7 +307,7 @@ impl<'a> Gen<'a> {
 
     pub(crate) fn step(&mut self, kind: K) -> bool {
         let regs = self.registered_conns();
-        let need_reg = !matches!(kind, K::Register | K::NewConn | K::Gated | K::CapStuff | K::Eof | K::Reset | K::EofMidLine);
+        let need_reg = !matches!(kind, K::Register | K::RegPiece | K::CompletionCollision | K::NewConn | K::Gated | K::CapStuff | K::Eof | K::Reset | K::EofMidLine);
         if need_reg && regs.is_empty() {
             return false;
         }
@@ -338,6 +340,100 @@ impl<'a> Gen<'a> {
                 self.register(c, &nick, &user);
                 true
             }
+            K::CompletionCollision => {
+                // A claims a nick without finishing; B registers that nick; A finishes (433 at completion) and
+                // then keeps trying with other names/nicks/passwords
+                if self.m.conns.len() + 2 > self.n_conns_target + 4 {
+                    return false;
+                }
+                let a = self.open_conn();
+                let b = self.open_conn();
+                if !self.m.conns[a].alive || !self.m.conns[b].alive {
+                    return true;
+                }
+                let x = self.free_nick();
+                let cfgnames: Vec<String> = self.m.cfg.users.iter().map(|u| u.name.clone()).collect();
+                let mut pws: Vec<String> = vec!["wrongpw".to_string()];
+                if let Some(p) = self.m.cfg.password.clone() {
+                    pws.push(p.clone());
+                    pws.push(p);
+                }
+                for u in &self.m.cfg.users {
+                    if let Some(p) = &u.password {
+                        pws.push(p.clone());
+                    }
+                }
+                if self.m.cfg.password.is_some() || self.r.chance(1, 3) {
+                    let pw = pws[self.r.below(pws.len())].clone();
+                    self.say(a, &format!("PASS {}", pw));
+                }
+                self.say(a, &format!("NICK {}", x));
+                self.register(b, &x, &format!("u{}", b));
+                let n = self.r.range(2, 5);
+                for _ in 0..n {
+                    if !self.m.conns[a].alive || self.m.conns[a].registered {
+                        break;
+                    }
+                    let line = match self.r.below(8) {
+                        0..=2 => format!("USER u{} 0 * :R", a),
+                        3 | 4 if !cfgnames.is_empty() => format!("USER {} 0 * :R", cfgnames[self.r.below(cfgnames.len())]),
+                        5 => format!("NICK {}", self.free_nick()),
+                        6 => format!("PASS {}", pws[self.r.below(pws.len())]),
+                        _ => "USER guest 0 * :R".to_string(),
+                    };
+                    self.say(a, &line);
+                }
+                // whoever A now is (or is not), B must still be x and A must be gated if unregistered
+                self.say(a, &format!("PRIVMSG {} :am I in?", x));
+                self.say(b, "PING stillme");
+                true
+            }
+            K::RegPiece => {
+                // one registration command on some unregistered connection: interleaves registrations
+                let un = self.unregistered_conns();
+                let c = if un.is_empty() || (un.len() < 3 && self.r.chance(1, 4)) {
+                    if self.m.conns.len() >= self.n_conns_target + 3 {
+                        return false;
+                    }
+                    let c = self.open_conn();
+                    if !self.m.conns[c].alive {
+                        return true;
+                    }
+                    c
+                } else {
+                    un[self.r.below(un.len())]
+                };
+                let cfgpass = self.m.cfg.password.clone();
+                let line = match self.r.below(10) {
+                    0..=3 => format!("NICK {}", self.pick_nick_pool()),
+                    4..=6 => {
+                        // own name, a configured user's name, or a plain other name
+                        let cfgnames: Vec<String> = self.m.cfg.users.iter().map(|u| u.name.clone()).collect();
+                        let name = match self.r.below(5) {
+                            0 if !cfgnames.is_empty() => cfgnames[self.r.below(cfgnames.len())].clone(),
+                            1 => "guest".to_string(),
+                            _ => format!("u{}", c),
+                        };
+                        format!("USER {} 0 * :Real {}", name, c)
+                    }
+                    7 => {
+                        let mut pws: Vec<String> = vec!["wrongpw".to_string()];
+                        if let Some(p) = cfgpass {
+                            pws.push(p.clone());
+                            pws.push(p);
+                        }
+                        for u in &self.m.cfg.users {
+                            if let Some(p) = &u.password {
+                                pws.push(p.clone());
+                            }
+                        }
+                        format!("PASS {}", pws[self.r.below(pws.len())])
+                    }
+                    8 => "CAP LS 302".to_string(),
+                    _ => "CAP END".to_string(),
+                };
+                self.say(c, &line)
+            }
             K::Join => {
                 let ch = self.pick_chan();
                 let key = self.m.chans.get(&ch).and_then(|c| c.key.clone());
@@ -357,6 +453,11 @@ impl<'a> Gen<'a> {
                     if !chs.contains(&ch) {
                         chs.push(ch);
                     }
+                }
+                if self.r.chance(1, 5) {
+                    // the same channel named twice
+                    let d = chs[self.r.below(chs.len())].clone();
+                    chs.push(d);
                 }
                 let with_keys = self.r.chance(1, 2);
                 let keys: Vec<String> = chs
